@@ -30,7 +30,7 @@ def mk_pool(flavor: str, net: Net, proxy: dict | None = None, legacy_proxy: bool
     kw["network_backend"] = SimAsyncBackend(net) if a else SimSyncBackend(net)
     if proxy is not None:
         url = proxy["url"]
-        pctx = RecordingSSLContext("proxy") if url.startswith("https") else None
+        pctx = proxy.get("ssl_context") or (RecordingSSLContext("proxy") if url.startswith("https") else None)
         if legacy_proxy:
             if url.startswith("socks5"):
                 cls = httpcore.AsyncSOCKSProxy if a else httpcore.SOCKSProxy
